@@ -135,6 +135,15 @@ class State:
         return {'dirty': sorted(self.dirty), 'commits': self.commits, 'mutated_after_commit': sorted(self.after)}
 
 
+SOFT_CAP = 32
+
+
+def tracked_signature(st):
+    """what the rules distinguish states by: session bookkeeping, correlations, and the values that stand for stored objects / attribute names"""
+    return (st.dirty, st.commits, st.after, tuple(sorted(st.corr.items())),
+            tuple(sorted((k, v.key()) for k, v in st.env.items() if isinstance(v, (Obj, Name)) or k.startswith('__single__'))))
+
+
 def join_state(a, b):
     env = {}
     for k in set(a.env) & set(b.env):
@@ -1265,6 +1274,22 @@ class Interp:
                             work.append(s_)
                         continue
                     k2 = e2.key()
+                    if k2 not in IN[s_.id] and len(IN[s_.id]) >= SOFT_CAP:
+                        # many disjuncts that agree on everything the rules look at (objects, attribute names, session state) and differ
+                        # only in plain locals (the fields of a log record being assembled ...): join with such a state instead of adding one
+                        sig2 = tracked_signature(e2)
+                        for ok_, old_ in list(IN[s_.id].items()):
+                            if tracked_signature(old_) == sig2:
+                                j_ = join_state(old_, e2)
+                                if tracked_signature(j_) == sig2:
+                                    if j_.key() != ok_:
+                                        del IN[s_.id][ok_]
+                                        IN[s_.id][j_.key()] = j_
+                                        work.append(s_)
+                                    k2 = None
+                                    break
+                        if k2 is None:
+                            continue
                     if k2 not in IN[s_.id]:
                         if len(IN[s_.id]) >= CAP:
                             self.ai.bounds_hit.append('disjunct cap in %s at line %s' % (self.fn.name, s_.line))
